@@ -49,6 +49,8 @@ type Contract struct {
 	Callback map[string][]Clause
 	Opaque   []string // callee names whose effects are ignored (pure/no effect on modelled state)
 	Pure     bool     // function has no effect on modelled heap (implies modifies nothing)
+	Timeout  int      // per-obligation solver time limit override (seconds)
+	GhostMaps []string // fresh uninterpreted Int->Int maps available in the ensures clauses (per call site)
 	Ghost    []string // misc flags
 	used     bool
 }
@@ -74,6 +76,7 @@ type Lemma struct {
 	Floats  string
 	Body    Clause
 	Assumes []Clause
+	Timeout int
 	File    string
 	Line    int
 }
@@ -267,6 +270,17 @@ func (cs *ContractSet) ParseContractText(file, pkgPath, text string) {
 					cur.Loops[k] = ls
 				}
 				ls.Invariants = append(ls.Invariants, c)
+			}
+		case "timeout":
+			n, _ := strconv.Atoi(rest)
+			if cur != nil {
+				cur.Timeout = n
+			} else if curLemma != nil {
+				curLemma.Timeout = n
+			}
+		case "ghostmap":
+			if cur != nil {
+				cur.GhostMaps = append(cur.GhostMaps, strings.Fields(rest)...)
 			}
 		case "inline":
 			if cur != nil {
